@@ -25,7 +25,7 @@ struct Scn {
     int n_pre = 0, n_after = 0;      // tagged pairs before / in the payload
     std::vector<size_t> qcuts, scuts; // cut positions in (pre_req+head+pay) and (pre_res+res_head+res_pay)
     int early_req_calls = 0;         // request calls attempted before any response byte (must consume 0)
-    bool framed101 = false;
+    bool framed101 = false, connect_cl = false;
     bool interim = false;            // a 100 Continue precedes the answer to CONNECT
     int lead = 0;                    // blanks in front of the first tunnelled HTTP request (the probe skips leading whitespace, as IIS does)
     bool expect_tunnel = false;
@@ -189,6 +189,8 @@ static Scn gen_scn() {
         static const int LN[] = {40, 900, 17990, 18010, 19000, 40000}; int n = LN[rcx::range(0, 5)] + rcx::range(0, 9); uint64_t x = (uint64_t)rcx::range(1, 1 << 30); // one generated value expanded deterministically (40000 separate draws would make shrinking useless)
         for (int i = 0; i < n; i++) { x = vc::mix(x + (uint64_t)i); int ch = 1 + (int)(x % 255); if (ch == '\n') ch = 0xfe; s.pay += (char)ch; } if ((unsigned char)s.pay[0] < 0x80) s.pay[0] = (char)0x80; s.res_pay = "SSH-2.0-x\r\n"; }
     bool ok2xx = s.status >= 200 && s.status <= 299;
+    // a CONNECT that announces a body is suspended like any other (what follows the head is tunnel payload once the 2xx is seen)
+    if (s.kind == 0 && ok2xx && (s.payload == 1 || s.payload == 2 || s.payload == 5) && rcx::chance(1, 6)) { size_t e = s.head.rfind("\r\n\r\n"); s.head.insert(e + 2, "Content-Length: " + std::to_string(rcx::range(1, 40)) + "\r\n"); s.connect_cl = true; }
     s.expect_tunnel = (s.kind == 0 && ok2xx && (s.payload == 1 || s.payload == 2 || s.payload == 4 || s.payload == 5)) || (s.kind == 1 && s.status == 101 && !s.framed101);
     if (s.expect_tunnel && s.payload == 3) s.res_pay.clear();
     if (s.kind == 1 && s.status == 101 && s.payload == 3) { s.pay.clear(); s.res_pay.clear(); }
@@ -214,7 +216,7 @@ static void campaign() {
         auto r = run_scn(s);
         if (!rcx::shrinking()) {
             g_stats.evaluations++; g_stats.cls(s.kind == 0 ? "connect" : "upgrade"); g_stats.cls("status_" + std::to_string(s.status)); g_stats.cls(s.expect_tunnel ? "expect_tunnel" : "expect_http_resumes");
-            static const char *PN[] = {"payload_http", "payload_tls_like", "payload_random", "payload_none", "payload_without_lf_or_nul", "payload_unknown_method_word"}; g_stats.cls(PN[s.payload]); if (s.lead) g_stats.cls("tunnelled_http_with_leading_blanks"); if (s.interim) g_stats.cls("interim_100_before_connect_answer"); if (s.framed101) g_stats.cls("status_101_with_content_length");
+            static const char *PN[] = {"payload_http", "payload_tls_like", "payload_random", "payload_none", "payload_without_lf_or_nul", "payload_unknown_method_word"}; g_stats.cls(PN[s.payload]); if (s.lead) g_stats.cls("tunnelled_http_with_leading_blanks"); if (s.interim) g_stats.cls("interim_100_before_connect_answer"); if (s.framed101) g_stats.cls("status_101_with_content_length"); if (s.connect_cl) g_stats.cls("connect_with_content_length");
             size_t he = s.pre_req.size() + s.head.size(); bool same_chunk = !s.pay.empty() && std::find(s.qcuts.begin(), s.qcuts.end(), he) == s.qcuts.end(); bool near = false; for (size_t c : s.qcuts) if (c + 4 >= he && c < he) near = true;
             if (same_chunk) g_stats.cls("payload_in_same_chunk_as_connect_head"); if (near) g_stats.cls("cut_within_last_4_bytes_of_head");
             if (same_chunk || near) g_stats.nt(vc::fnv1a(text));
